@@ -329,6 +329,12 @@ func (x *Exec) doRun(op Op) (*StepRecord, error) {
 			return nil, infra("variant %s step %d: %v", x.Variant, x.step, err)
 		}
 	}
+	if resp != nil {
+		// error texts carry absolute paths of the scratch world: make them independent of where it lives
+		resp.LoadErr = strings.ReplaceAll(resp.LoadErr, x.Root, "$ROOT")
+		resp.ExecErr = strings.ReplaceAll(resp.ExecErr, x.Root, "$ROOT")
+		resp.Panic = strings.ReplaceAll(resp.Panic, x.Root, "$ROOT")
+	}
 	rec.Resp = resp
 	post, err := TakeSnapshot(x.Root)
 	if err != nil {
